@@ -59,13 +59,13 @@ P = {
    text="Operation sequences run once through Sign->SerialSignBus->byte duplex->Odk->VirtualSignBus and once directly; success/failure, flip style and all sign observables must agree after every operation; the bridge log must forward exactly the decoded frames, consume exactly the line that was sent and write back exactly when the bus replied; raw messages (incl. 255-byte frames) go down both paths; undecodable lines give Communication errors without touching the bus.",
    note="Trusted: the in-process duplex; only success/failure (not error class) compared across paths."),
  "C18": dict(cat="exploration", sec="4/C18", tech="runtime monitoring: monotonic timestamps at the port boundary; lower bounds on paced gaps, min-over-trials upper bound on unpaced gaps",
-   text="Instant timestamps taken inside the port's read/write and around process_message give the gaps; paced exchanges (data chunks; in-progress reports received in answer to ANY request kind) must show >=30 ms / >=100 ms on every trial; every other sent kind and every other (request, reply) pair must show a minimum over trials below 30 ms; a data chunk after which the port's flush fails must still be followed by 30 ms of silence. Random sessions of 3-6 mixed messages through one bus instance check that pacing depends on the current exchange only. Lower bounds cannot false-alarm; the upper side uses min over repeated trials.",
+   text="Instant timestamps taken inside the port's read/write and around process_message give the gaps; paced exchanges (data chunks; in-progress reports received in answer to ANY request kind) must show >=30 ms / >=100 ms on every trial; every other sent kind and every other (request, reply) pair must show a minimum over trials below 30 ms; a data chunk after which the port's flush fails must still be followed by 30 ms of silence. Random sessions of 3-6 mixed messages through one bus instance check that pacing depends on the current exchange only; ports whose write / read calls block for 10-120 ms check that the delays run from the END of the write / read. Lower bounds cannot false-alarm; the upper side uses min over repeated trials.",
    note="Trusted: std Instant monotonicity and thread::sleep never returning early."),
  "C19": dict(cat="exploration", sec="4/C19", tech="runtime monitoring: field-arithmetic oracle on all types + exhaustive (family,id) sweep + virtual sign as downstream consumer",
-   text="All 11 types: block length, round trip, field arithmetic vs dimensions, and a virtual sign configured with the block — freshly, after a failed configuration as any other type, or after another block in the same transfer — accepts exactly a page of dimensions(). All 65536 (family,id) pairs x tails and all lengths 0..=40 are decoded under catch_unwind and compared with the harness's own list.",
+   text="All 11 types: block length, round trip, field arithmetic vs dimensions, and a virtual sign configured with the block — freshly, after a failed configuration as any other type, or after another block in the same transfer — accepts exactly a page of dimensions(); an unsupported block after a supported one leaves the sign without a recorded type. All 65536 (family,id) pairs x tails and all lengths 0..=40 are decoded under catch_unwind and compared with the harness's own list.",
    note="Trusted: harness list of 11 (family,id,w,h)."),
  "C20": dict(cat="fault_enumeration", sec="4/C20", tech="runtime monitoring: instrumented serial device recording settings calls, exhaustive prior settings x fault points",
-   text="All 864 prior settings x 3 entry points x (no fault + 4 fault points), and all 7 error kinds (incl. Interrupted) at every fault point, are executed on an instrumented device whose log survives the move into the constructor; final settings, applied timeout, error propagation and absence of data I/O are checked; one-shot and two-shot (transient) refusals at every fault point must end either in an error or in the full required configuration. Complete enumeration.",
+   text="All 864 prior settings x 3 entry points x (no fault + 4 fault points), and all 7 error kinds (incl. Interrupted) at every fault point, are executed on an instrumented device whose log survives the move into the constructor; final settings, applied timeout, error propagation and absence of data I/O are checked; sub-millisecond, fractional and very long caller timeouts must be applied exactly; one-shot and two-shot (transient) refusals at every fault point must end either in an error or in the full required configuration. Complete enumeration.",
    note="Trusted: the instrumented device."),
 }
 
